@@ -7,6 +7,8 @@ package main
 // count for a table), runs the public API call that reaches the site on the real library and prints
 // a canonical outcome; the Lean driver evaluates the model of the site on the same values.
 //
+//   rw  <r,cell,…;…>                            GetRows through the streaming iterator: lengths of the rows returned (cell = col|-|B : v|n)
+//   ic  <vm> <nBk> <rcLen> <v> <nRv>            GetPictures on a cell image cell (getImageCellRel: value metadata / rich value indices)
 //   gr  <0/1 per row>                           GetRows: rows r=1..n, empty or with a value; number of rows returned
 //   bs  <hex>                                   bstrUnmarshal (hook VerifBstrUnmarshal): result bytes
 //   st  <idx> <nXf> <fillP> <fillId> <nFills> <borderP> <borderId> <nBorders> <fontP> <fontId> <nFonts>   GetStyle
@@ -475,6 +477,139 @@ func (c *c14Ctx) opAG(a c14Ag) {
 	}
 }
 
+// opRW: spec = rows separated by ';', each "<r>,<cell>,…" with cell "<col|-|B>:<v|n>" (col = 1-based column of a
+// valid reference, '-' = no r attribute, 'B' = unparsable r attribute; v = has a value)
+func (c *c14Ctx) opRW(spec string) {
+	c14SiteInit()
+	var sb strings.Builder
+	if spec != "-" {
+		for _, rs := range strings.Split(spec, ";") {
+			p := strings.Split(rs, ",")
+			r, _ := strconv.Atoi(p[0])
+			if r != 0 {
+				fmt.Fprintf(&sb, `<row r="%d">`, r)
+			} else {
+				sb.WriteString(`<row>`)
+			}
+			rr := r
+			if rr < 1 || rr > c14TotalRows {
+				rr = 1
+			}
+			for _, cs := range p[1:] {
+				kv := strings.Split(cs, ":")
+				ref := ""
+				switch kv[0] {
+				case "-":
+				case "B":
+					ref = ` r="1A"`
+				default:
+					n, _ := strconv.Atoi(kv[0])
+					name, err := xl.CoordinatesToCellName(n, rr)
+					if err != nil {
+						return
+					}
+					ref = ` r="` + name + `"`
+				}
+				if kv[1] == "v" {
+					sb.WriteString(`<c` + ref + `><v>7</v></c>`)
+				} else {
+					sb.WriteString(`<c` + ref + `/>`)
+				}
+			}
+			sb.WriteString(`</row>`)
+		}
+	}
+	sheet := `<?xml version="1.0" encoding="UTF-8" standalone="yes"?><worksheet ` + c14NS + `><sheetData>` + sb.String() + `</sheetData></worksheet>`
+	data := c14Patch(c14SiteBase.plain, "xl/worksheets/sheet1.xml", func(string) string { return sheet })
+	res := c14Open(data, func(f *xl.File) string {
+		rows, err := f.GetRows("Sheet1")
+		var ls []string
+		for _, r := range rows {
+			ls = append(ls, strconv.Itoa(len(r)))
+		}
+		out := strings.Join(ls, ",")
+		if out == "" {
+			out = "-"
+		}
+		if err != nil {
+			return "ERR " + out
+		}
+		return "ok " + out
+	})
+	c.site("rw "+spec, res, "panic:Rows:iterator", "the streaming row iterator panics")
+}
+
+func c14GenRW(c *c14Ctx, rng *Rng, thorough bool) {
+	for _, s := range []string{"-", "1", "0", "1,1:v", "0,-:v", "3,2:v", "2,-:v,-:n,-:v;1,1:v", "5,3:v;5,1:v", "0,-:v;0,-:v;0,-:n;0,-:v",
+		"1,B:v", "1,1:v;2,B:v;3,1:v", "1048576,1:v", "1048577,1:v", "1,1:v;1048577,1:v;2,1:v", "2,1:v;99999999", "7;3,1:v;9,2:n", "1,16384:v", "1,3:v,1:v,-:v"} {
+		c.opRW(s)
+	}
+	n := 150
+	if thorough {
+		n = 1500
+	}
+	for i := 0; i < n; i++ {
+		var rows []string
+		for k := rng.Range(1, 5); k > 0; k-- {
+			r := rng.Pick2([]int{0, 0, 1, 2, 3, 5, 9, 2, 1, 40})
+			if rng.Chance(3) {
+				r = rng.Pick2([]int{c14TotalRows + 1, 4294967296, 3000})
+			}
+			row := strconv.Itoa(r)
+			for j := rng.Range(0, 4); j > 0; j-- {
+				col := rng.Pick([]string{"-", "-", "1", "2", "3", "5", "9"})
+				if rng.Chance(4) {
+					col = "B"
+				}
+				row += "," + col + ":" + rng.Pick([]string{"v", "v", "n"})
+			}
+			rows = append(rows, row)
+		}
+		c.opRW(strings.Join(rows, ";"))
+	}
+}
+
+func (c *c14Ctx) opIC(vm uint64, nBk, rcLen, v, nRv int) {
+	c14SiteInit()
+	sheet := `<?xml version="1.0" encoding="UTF-8" standalone="yes"?><worksheet ` + c14NS + `><sheetData><row r="1">` +
+		fmt.Sprintf(`<c r="A1" t="e" vm="%d"><v>#VALUE!</v></c>`, vm) + `</row></sheetData></worksheet>`
+	meta := `<?xml version="1.0" encoding="UTF-8" standalone="yes"?><metadata ` + c14NS + `>`
+	if nBk >= 0 {
+		meta += fmt.Sprintf(`<valueMetadata count="%d">`, nBk) + c14Rep(`<bk>`+c14Rep(fmt.Sprintf(`<rc t="1" v="%d"/>`, v), rcLen)+`</bk>`, nBk) + `</valueMetadata>`
+	}
+	meta += `</metadata>`
+	rv := `<?xml version="1.0" encoding="UTF-8" standalone="yes"?><rvData xmlns="http://schemas.microsoft.com/office/spreadsheetml/2017/richdata" count="` +
+		strconv.Itoa(nRv) + `">` + c14Rep(`<rv s="0"><v>0</v></rv>`, nRv) + `</rvData>`
+	parts := make([]c14Part, len(c14SiteBase.plain))
+	copy(parts, c14SiteBase.plain)
+	for i := range parts {
+		if parts[i].name == "xl/worksheets/sheet1.xml" {
+			parts[i].data = []byte(sheet)
+		}
+	}
+	parts = append(parts, c14Part{"xl/metadata.xml", []byte(meta)}, c14Part{"xl/richData/rdrichvalue.xml", []byte(rv)})
+	res := c14Open(c14WriteZip(parts), func(f *xl.File) string {
+		if _, err := f.GetPictures("Sheet1", "A1"); err != nil {
+			return "ERR"
+		}
+		return "ok"
+	})
+	op := fmt.Sprintf("ic %d %d %d %d %d", vm, nBk, rcLen, v, nRv)
+	ln := c.r.Op(op, res)
+	c.r.Case(op, true)
+	c.r.Stat("ic:" + c14Class(res))
+	if res == "PANIC" {
+		sig := "panic:getImageCellRel:other"
+		switch {
+		case vm == 0:
+			sig = "panic:getImageCellRel:vm-zero"
+		case v < 0:
+			sig = "panic:getImageCellRel:negative-rich-value-index"
+		}
+		c.r.Fail(sig, fmt.Sprintf("GetPictures panics in getImageCellRel: cell vm=%d, %d metadata blocks with %d records v=%d, %d rich values", vm, nBk, rcLen, v, nRv), ln, op)
+	}
+}
+
 func (c *c14Ctx) opGR(flags string) {
 	c14SiteInit()
 	var sb strings.Builder
@@ -537,6 +672,20 @@ func c14GenBS(c *c14Ctx, rng *Rng, thorough bool) {
 // c14GenSites: boundary-heavy decoded values for every site.
 func c14GenSites(c *c14Ctx, rng *Rng, fx []*c14Fixture, thorough bool) {
 	c14GenBS(c, rng, thorough)
+	c14GenRW(c, rng, thorough)
+	for _, vm := range []uint64{0, 1, 2, 3, 4294967295} {
+		for _, nBk := range []int{-1, 0, 1, 2} {
+			for _, rc := range []int{0, 1} {
+				for _, v := range []int{-9223372036854775808, -1, 0, 1, 2} {
+					for _, nRv := range []int{0, 1, 2} {
+						if rng.Chance(40) || (vm <= 1 && nBk == 1 && rc == 1 && nRv == 1) {
+							c.opIC(vm, nBk, rc, v, nRv)
+						}
+					}
+				}
+			}
+		}
+	}
 	for _, fl := range []string{"", "0", "1", "00", "01", "10", "11", "0001", "1000", "0100010", "1111", "0000", "10000001"} {
 		c.opGR(fl)
 	}
